@@ -37,11 +37,12 @@ def litRec (s : List Char) : String :=
 
 def posRec (pos : String) (lit : List Char) : String :=
   let usd := " USD".toList
+  let want := if pos == "bare" || pos == "barebal" || pos == "factor" then "" else "USD"
   let finishV (r : PRes VExpr) (suffix : List Char) (pick : VExpr → Option (PDec × String)) : String :=
     match r with
     | .ok v rest =>
       match pick v with
-      | some (d, c) => if c == "USD" && rest == suffix then okRec d else "partial"
+      | some (d, c) => if c == want && rest == suffix then okRec d else "partial"
       | none => "partial"
     | .fail _ => "parse-err"
     | .fuelOut => "fuel"
@@ -62,6 +63,12 @@ def posRec (pos : String) (lit : List Char) : String :=
   | "lot" => finishV (parseValueExpr (lit ++ usd ++ "}\n".toList)) "}\n".toList plain
   | "lottotal" => finishV (parseValueExpr (lit ++ usd ++ "}}\n".toList)) "}}\n".toList plain
   | "format" | "pricedb" => finishV (amount (lit ++ usd ++ ['\n'])) ['\n'] plain
+  | "bare" | "barebal" => finishV (parseValueExpr (lit ++ ['\n'])) ['\n'] plain
+  | "factor" =>
+    let t := '(' :: lit ++ " * 2 USD)\n".toList
+    finishV (parseValueExpr t) ['\n'] fun
+      | .paren (.bin .mul (.val (.amt d c)) _) => some (d, c)
+      | _ => none
   | _ => finishV (parseValueExpr (lit ++ usd ++ ['\n'])) ['\n'] plain
 
 def specRec (s : List Char) : String :=
